@@ -414,6 +414,9 @@ func (c *checkCtx) tablesTask() {
 	}
 }
 
+// outDir: where evidence and replay files go (/verif, or a scratch directory for self-test runs)
+func (c *checkCtx) outDir() string { return envOr("VERIF_OUT", c.V.verifDir) }
+
 func seedFromEnv() int {
 	if s := os.Getenv("VERIF_SEED"); s != "" {
 		if v, err := strconv.Atoi(s); err == nil {
@@ -732,7 +735,7 @@ func (c *checkCtx) finish() int {
 	// vacuity: there must be obligations, and the bare prelude must be consistent as far as the solvers can tell
 	rc := 0
 	violations := 0
-	os.MkdirAll(filepath.Join(c.V.verifDir, "evidence", "replay"), 0o755)
+	os.MkdirAll(filepath.Join(c.outDir(), "evidence", "replay"), 0o755)
 	var knownReported []string
 	if total == 0 {
 		fmt.Println("gocv: no obligations were generated — the check is vacuous")
@@ -754,7 +757,7 @@ func (c *checkCtx) finish() int {
 		if violations > 25 {
 			continue
 		}
-		path := filepath.Join(c.V.verifDir, "evidence", "replay", fmt.Sprintf("%s-%d.json", c.prop, i+1))
+		path := filepath.Join(c.outDir(), "evidence", "replay", fmt.Sprintf("%s-%d.json", c.prop, i+1))
 		rp := c.writeReplay(o, path)
 		suffix := " no-failing-input-found"
 		if rp {
@@ -876,8 +879,8 @@ func (c *checkCtx) writeEvidence(total, ok, trivial int, by map[string]int, solv
 		"violations":  violations,
 	}
 	b, _ := json.MarshalIndent(ev, "", " ")
-	os.MkdirAll(filepath.Join(c.V.verifDir, "evidence"), 0o755)
-	os.WriteFile(filepath.Join(c.V.verifDir, "evidence", c.prop+".json"), b, 0o644)
+	os.MkdirAll(filepath.Join(c.outDir(), "evidence"), 0o755)
+	os.WriteFile(filepath.Join(c.outDir(), "evidence", c.prop+".json"), b, 0o644)
 }
 
 func writeLoadFailure(vdir, prop, tier string, err error) int {
